@@ -200,12 +200,12 @@ Proof.
     + apply (ps_T1_key3 _ _ _ _ E). apply TR. apply in_or_app. right. exact H0.
 Qed.
 
-Lemma ps_walk_T rd ptr isz : forall fuel st st', ps_T isz st -> s_cur st = [] ->
-  ps_walk fuel rd ptr isz st = POk st' -> ps_T isz st' /\ s_cur st' = [].
+Lemma ps_walk_T fixed rd ptr isz : forall fuel st st', ps_T isz st -> s_cur st = [] ->
+  ps_walk fixed fuel rd ptr isz st = POk st' -> ps_T isz st' /\ s_cur st' = [].
 Proof.
   induction fuel as [|f IH]; intros st st' T Hc; [discriminate|]. cbn [ps_walk].
   destruct (s_queue st) as [|[ext len] q]; [intros H; injection H as <-; split; assumption|].
-  destruct (ps_mem ext (s_seen st)); [discriminate|].
+  destruct (ps_enter fixed isz (s_seen st) ext len) as [w|sn]; [discriminate|].
   destruct (rd ext len) as [data|]; [|discriminate].
   destruct (ps_scan _ _ data 0 len _) as [[st2 l2]| | |] eqn:Es; try discriminate.
   apply IH; [|reflexivity].
@@ -230,11 +230,11 @@ Theorem parse_truncation_lengths fuel img ptr isz re rl g :
     (p_dlen c = data_len (p_rec c) \/ (p_dlen c = isz - e * BS /\ l = isz - e * BS)) /\
     (e * BS + data_len (p_rec c) > isz -> p_dlen c = isz - e * BS /\ l = isz - e * BS).
 Proof.
-  unfold parse, ps_parse. destruct ptr as [|e0 pt]; [discriminate|].
-  destruct (ps_walk fuel (ms_img_read img) (e0 :: pt) isz (ps_init re rl)) as [st| | |] eqn:Ew; try discriminate.
+  unfold parse, ps_parse, ps_parse_gen. destruct ptr as [|e0 pt]; [discriminate|].
+  destruct (ps_walk true fuel (ms_img_read img) (e0 :: pt) isz (ps_init re rl)) as [st| | |] eqn:Ew; try discriminate.
   intros H. injection H as <-. intros c i Hc Hi.
   assert (T0 : ps_T isz (ps_init re rl)) by (constructor; [intros c0 []|intros x j Hx; discriminate Hx]).
-  destruct (ps_walk_T (ms_img_read img) (e0 :: pt) isz fuel _ st T0 eq_refl Ew) as [[TR _] Hcur].
+  destruct (ps_walk_T true (ms_img_read img) (e0 :: pt) isz fuel _ st T0 eq_refl Ew) as [[TR _] Hcur].
   unfold ps_all_recs in Hc. cbn [g_dirs ps_graph g_inodes] in *.
   apply (TR c); [|exact Hi]. unfold ps_recs. rewrite Hcur, app_nil_r. exact Hc.
 Qed.
